@@ -13,39 +13,43 @@
 EXTENDS Integers, Sequences, FiniteSets, TLC
 
 FailKinds == {"none", "parse", "decode", "eval", "encode", "sink"}
-Truths == {"truthy", "falsy", "none"}      \* class of the results of every document (for -e)
+\* class of the results (for -e): every document truthy / falsy / no result; "tf": only the FIRST document's result is
+\* truthy; "ft": only the LAST one's
+Truths == {"truthy", "falsy", "none", "tf", "ft"}
+DocTruthy(c, d) == c.truth = "truthy" \/ (c.truth = "tf" /\ d = 1) \/ (c.truth = "ft" /\ d = c.ndocs)
 
 \* cfg == [ndocs, layout, fail |-> [kind, at], e, truth]
-VARIABLES cfg, stage, k, printed, exit, stderr
-vars == <<cfg, stage, k, printed, exit, stderr>>
+VARIABLES cfg, stage, k, printed, exit, stderr,
+          seen       \* a truthy result has been printed (what -e looks at: it accumulates over all results)
+vars == <<cfg, stage, k, printed, exit, stderr, seen>>
 
 ResultsPerDoc(c) == IF c.truth = "none" THEN 0 ELSE 1
 
-Start(c) == cfg = c /\ stage = "parse" /\ k = 1 /\ printed = 0 /\ exit = -1 /\ stderr = FALSE
-FailNow == stage' = "done" /\ exit' = 1 /\ stderr' = TRUE /\ UNCHANGED <<cfg, k, printed>>
+Start(c) == cfg = c /\ stage = "parse" /\ k = 1 /\ printed = 0 /\ exit = -1 /\ stderr = FALSE /\ seen = FALSE
+FailNow == stage' = "done" /\ exit' = 1 /\ stderr' = TRUE /\ UNCHANGED <<cfg, k, printed, seen>>
 
 Parse == /\ stage = "parse"
          /\ IF cfg.fail.kind = "parse" THEN FailNow
-            ELSE stage' = "decode" /\ UNCHANGED <<cfg, k, printed, exit, stderr>>
+            ELSE stage' = "decode" /\ UNCHANGED <<cfg, k, printed, exit, stderr, seen>>
 Decode == /\ stage = "decode"
-          /\ IF k > cfg.ndocs THEN stage' = "exitcheck" /\ UNCHANGED <<cfg, k, printed, exit, stderr>>
+          /\ IF k > cfg.ndocs THEN stage' = "exitcheck" /\ UNCHANGED <<cfg, k, printed, exit, stderr, seen>>
              ELSE IF cfg.fail.kind = "decode" /\ cfg.fail.at = k THEN FailNow
-             ELSE stage' = "eval" /\ UNCHANGED <<cfg, k, printed, exit, stderr>>
+             ELSE stage' = "eval" /\ UNCHANGED <<cfg, k, printed, exit, stderr, seen>>
 Eval == /\ stage = "eval"
         /\ IF cfg.fail.kind = "eval" /\ cfg.fail.at = k THEN FailNow
-           ELSE stage' = "encode" /\ UNCHANGED <<cfg, k, printed, exit, stderr>>
+           ELSE stage' = "encode" /\ UNCHANGED <<cfg, k, printed, exit, stderr, seen>>
 \* encode and write the results of document k; a failing sink fails the first write
 Encode == /\ stage = "encode"
           /\ IF ResultsPerDoc(cfg) > 0 /\ (cfg.fail.kind = "sink" \/ (cfg.fail.kind = "encode" /\ cfg.fail.at = k)) THEN FailNow
-             ELSE stage' = "decode" /\ k' = k + 1 /\ printed' = printed + ResultsPerDoc(cfg) /\ UNCHANGED <<cfg, exit, stderr>>
+             ELSE stage' = "decode" /\ k' = k + 1 /\ printed' = printed + ResultsPerDoc(cfg) /\ seen' = (seen \/ DocTruthy(cfg, k)) /\ UNCHANGED <<cfg, exit, stderr>>
 \* -e: status 1 exactly when no result was produced or every result is null or false
-ExitCheck == /\ stage = "exitcheck" /\ stage' = "done" /\ UNCHANGED <<cfg, k, printed>>
-             /\ IF cfg.e /\ cfg.truth # "truthy" THEN exit' = 1 /\ stderr' = TRUE ELSE exit' = 0 /\ stderr' = FALSE
+ExitCheck == /\ stage = "exitcheck" /\ stage' = "done" /\ UNCHANGED <<cfg, k, printed, seen>>
+             /\ IF cfg.e /\ ~seen THEN exit' = 1 /\ stderr' = TRUE ELSE exit' = 0 /\ stderr' = FALSE
 Next == Parse \/ Decode \/ Eval \/ Encode \/ ExitCheck
 
 \* ---- the declarative rule
 Failed(c) == c.fail.kind \in {"parse", "decode", "eval"} \/ (c.fail.kind \in {"encode", "sink"} /\ ResultsPerDoc(c) > 0)
-RefExit(c) == IF Failed(c) THEN 1 ELSE IF c.e /\ c.truth # "truthy" THEN 1 ELSE 0
+RefExit(c) == IF Failed(c) THEN 1 ELSE IF c.e /\ ~(\E d \in 1..c.ndocs : DocTruthy(c, d)) THEN 1 ELSE 0
 RefPrinted(c) == CASE c.fail.kind \in {"parse", "sink"} -> 0
                    [] c.fail.kind \in {"decode", "eval", "encode"} /\ Failed(c) -> (c.fail.at - 1) * ResultsPerDoc(c)
                    [] OTHER -> c.ndocs * ResultsPerDoc(c)
